@@ -310,6 +310,23 @@ func c03Marshal(c *ctx, d docSpec, how string) {
 			obs = oC("invalid-json")
 			return
 		}
+		// the primary resource objects carry the types and IDs of the resources given, in order
+		if data := member(tree, "data"); key == "" && data != nil && len(d.errors) == 0 && !strings.Contains(d.dataKind, "identifier") && d.dataKind != "nil" {
+			objs := data.arr
+			if data.kind == "obj" {
+				objs = []*jnode{data}
+			}
+			if len(objs) == len(d.data) {
+				for i, o := range objs {
+					ty, id := member(o, "type"), member(o, "id")
+					wantID, _ := d.data[i].ops[0].val.(string)
+					if ty == nil || id == nil || ty.s != d.data[i].tn || id.s != wantID {
+						key, detail = "document-not-well-formed", fmt.Sprintf("data[%d] does not carry the type and id of the resource given (%s/%s): %s", i, d.data[i].tn, wantID, out)
+						break
+					}
+				}
+			}
+		}
 		env.addTree(tree)
 		obs = oOk(tree.obs())
 	})
